@@ -229,6 +229,11 @@ def run_shard(ctx):
             continue
         sv = o.result._survey
         xs = []
+        import json as _json
+        try:
+            dump_after_first = _json.dumps(sv.to_json_dict(), sort_keys=True, default=str)
+        except Exception:  # noqa: BLE001 - C16's business
+            dump_after_first = None
         for _ in range(3):
             try:
                 xs.append(sv.to_xml(validate=False, pretty_print=False))
@@ -242,6 +247,19 @@ def run_shard(ctx):
             detail = xs[which[0]][:200] if xs[which[0]].startswith("<<raised") else xdiff.diffs(o.xform, xs[which[0]])[:2]
             ctx.viol(f"regeneration:to_xml-not-idempotent:{kind}", f"{cid}: survey.to_xml() call #{which[0] + 2} differs from the first: {detail}",
                      common.witness(form, case=cid, history="to_xml x3"))
+        # what the survey would save of itself must not creep with the number of renderings either
+        if dump_after_first is not None:
+            try:
+                dump_after_fourth = _json.dumps(sv.to_json_dict(), sort_keys=True, default=str)
+            except Exception:  # noqa: BLE001
+                dump_after_fourth = dump_after_first
+            ctx.ctr("survey_dump_comparisons")
+            if dump_after_fourth != dump_after_first:
+                a, b = _json.loads(dump_after_first), _json.loads(dump_after_fourth)
+                keys = sorted(k for k in set(a) | set(b) if a.get(k) != b.get(k))
+                ctx.viol(f"regeneration:survey-state-grows-with-renderings:{'+'.join(keys)[:60]}",
+                         f"{cid}: the survey's own dump after 4 renderings differs from the one after the first in {keys}: {str(a.get(keys[0]))[:120]!r} -> {str(b.get(keys[0]))[:160]!r}",
+                         common.witness(form, case=cid, history="to_xml x4, to_json_dict compared"))
         same = render.to_dict(form.to_sheets(), **kw)
         o1 = drive.call_convert(same, **form.args)
         o2 = drive.call_convert(same, **form.args)
